@@ -10,6 +10,17 @@ BASE_NOTE = ('Trusted: Lean 4.33 kernel; axioms propext/Classical.choice/Quot.so
              'against the real code); floats idealised as exact rationals (deviation measured by the oracle pass).')
 
 CHECKS = {
+    'C03': dict(
+        text='Proof over the accounts model (mirrors FuturesExchange/Order/Position branch by branch, with the GENERATED '
+             'estimate_PNL / estimate_average_price inside; tied by step-by-step correspondence with the real objects): one '
+             'executed order changes wallet, size and average entry exactly as one fill of a reference average-cost margin '
+             'account in every branch (open, increase, reduce, close, oversize reduce-only, flip), fee on every fill, '
+             'reduce-only fills never increase or flip, a non-reduce-only order is rejected iff notional/leverage exceeds the '
+             'available margin (state unchanged), and submit-then-cancel restores the available margin exactly (also with '
+             'duplicate rows), for any number of symbols.',
+        technique='Lean 4 refinement to a reference margin account (case analysis over all branches) + algebraic margin lemmas; line-protocol correspondence; exact reference oracle',
+        ref='4 (C03)',
+        note='The refinement theorem is stated for one symbol per world; multi-symbol margin sharing is covered by rejection_iff / submit_cancel (any number of symbols) and by correspondence.'),
     'C04': dict(
         text='Proof over the accounts model (mirrors SpotExchange/Order/Position branch by branch; tied by step-by-step '
              'correspondence with the real objects): the resting-sells sums equal the sums over the active STOP/LIMIT sells '
